@@ -76,6 +76,10 @@ TIE_FUNCS = {
                               "LeanString.try_pop", "LeanString.try_push_str", "LeanString.try_remove", "LeanString.try_insert",
                               "LeanString.try_insert_str", "LeanString.try_truncate", "LeanString.capacity", "LeanString.len",
                               "LeanString.is_heap_allocated"],
+    "LSProofs.Gen.Panicking": ["LeanString.push", "LeanString.pop", "LeanString.push_str", "LeanString.remove", "LeanString.insert",
+                               "LeanString.insert_str", "LeanString.truncate", "LeanString.reserve", "LeanString.shrink_to",
+                               "LeanString.shrink_to_fit", "LeanString.with_capacity", "LeanString.try_with_capacity",
+                               "LeanString.add_assign", "LeanString.write_str", "LeanString.add", "LeanString.from_str_ref"],
     "LSProofs.Gen.CloneDrop": ["LeanString.clone", "LeanString.clone_from", "LeanString.drop", "Repr.make_shallow_clone",
                                "Repr.replace_inner", "Repr.new"],
     "LSProofs.Gen.StepG": ["Repr.new", "Repr.from_str", "Repr.with_capacity", "Repr.replace_inner", "Repr.set_len", "Repr.truncate_unchecked",
@@ -88,10 +92,10 @@ TIE_FUNCS = {
                           "Repr.make_shallow_clone"],
 }
 TIES = {
-    "C01": T("Ctor", "Readers", "Release", "SetLen", "Reserve", "Ensure", "Shrink", "Clone", "Clear", "PushStr", "InsertStr", "PopRemove", "Good", "Wrappers", "CloneDrop", "StepG") + ["LSProofs.Props.C01G"],
+    "C01": T("Ctor", "Readers", "Release", "SetLen", "Reserve", "Ensure", "Shrink", "Clone", "Clear", "PushStr", "InsertStr", "PopRemove", "Good", "Wrappers", "Panicking", "CloneDrop", "StepG") + ["LSProofs.Props.C01G"],
     "C02": T("Reserve", "Ensure", "Shrink", "Clear", "SetLen", "StepG"),
     "C03": T("Release", "Clone", "CloneDrop", "Reserve", "Ensure", "Shrink", "StepG"),
-    "C05": T("Reserve", "Ensure", "Shrink", "SetLen", "Ctor", "PushStr", "InsertStr", "PopRemove", "Wrappers"),
+    "C05": T("Reserve", "Ensure", "Shrink", "SetLen", "Ctor", "PushStr", "InsertStr", "PopRemove", "Wrappers", "Panicking"),
     "C06": T("Reserve", "Shrink", "Ctor"),
     "C07": T("SetLen", "InsertStr", "PopRemove"),
     "C08": T("Clone", "CloneDrop"),
